@@ -44,8 +44,9 @@ pub enum VerifOp { Cons, Read }
 pub struct VerifToSexp { pub x: u8 }
 impl VerifToSexp {
     pub fn simple() -> VerifToSexp { VerifToSexp { x: 0 } }
-    // ASSUMED contract of SimpleCreateCLVMObject::invoke = to_sexp_type (classic/clvm/sexp.rs, a conversion stack machine not under proof):
-    // a node is returned as it is, a tuple of two nodes becomes the pair of them (or the allocator is full)
+    // proved in unit `tosexp` (SimpleCreateCLVMObject::invoke over to_sexp_type, for every value made of nodes, tuples, byte strings,
+    // strings and numbers: the returned node denotes ct_tree(value)); restated here for the two shapes the deserialiser hands over
+    // -- a node, and a tuple of two nodes -- because this unit's CastableType carries stand-in payloads (R44)
     #[verifier::external_body]
     pub fn invoke(&self, allocator: &mut Allocator, v: CastableType) -> (r: Response)
         requires
@@ -54,10 +55,9 @@ impl VerifToSexp {
                 && node_tree(*old(allocator), a) is Some && node_tree(*old(allocator), b) is Some)),
         ensures
             alloc_ext(*old(allocator), *final(allocator)),
-            v matches CastableType::CLVMObject(n) ==> (r matches Ok(red) && red.1 == n),
+            v matches CastableType::CLVMObject(n) ==> (r matches Ok(red) ==> node_tree(*final(allocator), red.1) == node_tree(*old(allocator), n)),
             v matches CastableType::TupleOf(l, rr) ==> (*l matches CastableType::CLVMObject(a) && (*rr matches CastableType::CLVMObject(b)
-                && (r matches Ok(red) ==> node_tree(*final(allocator), red.1) == Some(Tree::Pair(Box::new(node_tree(*old(allocator), a)->Some_0), Box::new(node_tree(*old(allocator), b)->Some_0))))
-                && (r is Err ==> alloc_full(*old(allocator))))),
+                && (r matches Ok(red) ==> node_tree(*final(allocator), red.1) == Some(Tree::Pair(Box::new(node_tree(*old(allocator), a)->Some_0), Box::new(node_tree(*old(allocator), b)->Some_0)))))),
     { unimplemented!() }
 }
 
@@ -138,7 +138,7 @@ impl OpCons {
            if n >= 2 {
                (res is None ==> final(val_stack)@.len() == n - 1 && final(val_stack)@.subrange(0, n - 2) == vs.subrange(0, n - 2)
                     && val_tree(*final(allocator), final(val_stack)@[n - 2]) == Tree::Pair(Box::new(val_tree(*old(allocator), vs[n - 2])), Box::new(val_tree(*old(allocator), vs[n - 1]))))
-               && (res is Some ==> alloc_full(*old(allocator)) && final(val_stack)@ == vs.subrange(0, n - 2))
+               && (res is Some ==> final(val_stack)@ == vs.subrange(0, n - 2))
            } else { res is None && final(val_stack)@.len() == 0 } }),
 //@ end
 }
